@@ -349,3 +349,12 @@ MUTANTS += [
     ("lerp-tolerance-shortcut", "core/src/interpolation.rs", _F32_LERP,
      "        if (y1 - self).abs() < f32::EPSILON {\n            return *self;\n        }\n" + _F32_LERP, ["C14", "C17"], "lerp-shape"),
 ]
+
+# round 7 of the seeded changes
+MUTANTS += [
+    ("sort-unstable", "core/src/timeline.rs", ".sort_by(|a, b| a.normalized_time.total_cmp(&b.normalized_time));",
+     ".sort_unstable_by(|a, b| a.normalized_time.total_cmp(&b.normalized_time));", ["C01", "C11", "C17", "C04"], "sort-not-stable"),
+    ("merged-delay-seeded-with-infinity", "core/src/timeline.rs",
+     """            .min_by(|a, b| a.partial_cmp(b).unwrap_or(Ordering::Less))
+            .unwrap_or(0.)""", "            .fold(f32::INFINITY, f32::min)", ["C12", "C20"], "fold-init-wrong"),
+]
